@@ -17,8 +17,9 @@
       stored into the value ([est]).  Without it the statement is false, and rightly so: the load fails,
       a Put that found the placeholder and is parked on value.lock stores its revision (store clears err),
       a Get that waited on the same value is then served that revision, while the loading Get returned
-      the error.  The harness sees both orders on the real code (the waiting Get returns the error when it
-      gets the lock before the Put).  Not a defect: the Put carries what storage now holds. *)
+      the error.  (On the real code the waiting Get is woken before the parked Put -- sync.RWMutex hands the
+      lock to blocked readers first -- and returns the error, as the step-level cases show; a Get arriving
+      after the store is served the stored revision.)  Not a defect: the Put carries what storage now holds. *)
 From SG Require Import Base.Prelude C16.RevCache C16.RevCacheProofs C16.RevCacheConc C16.RevCacheStep.
 Open Scope Z_scope.
 
